@@ -123,7 +123,13 @@ let () =
         let set_address () = ext 2 (fixed be asz (Z.of_int !addr)) in
         let seqs = 1 + rand_int r 3 in
         let prog = List.concat (List.init seqs (fun _ ->
-          let head = set_address () in
+          (* sequence start: usually an address; sometimes a tombstone address (-1 / -2 at the address size:
+             the reader drops the whole sequence), sometimes no DW_LNE_set_address at all (starts at 0) *)
+          let head = match rand_int r 8 with
+            | 0 -> let ones = Z.pred (Z.shift_left Z.one (8 * asz)) in
+                   ext 2 (fixed be asz (if rand_bool r then ones else Z.pred ones))
+            | 1 -> []
+            | _ -> set_address () in
           let body = List.concat (List.init (1 + rand_int r 10) (fun _ ->
             match rand_int r 18 with
             | 0 -> std 1 []
